@@ -13,10 +13,10 @@ THEOREMS = ["PotasscoVerif.C12.C12_heap", "PotasscoVerif.C12.C12_redefinition", 
             "PotasscoVerif.C12.C12_elem_add", "PotasscoVerif.C12.C12_elem_redefinition", "PotasscoVerif.C12.C12_elem_new_iff", "PotasscoVerif.C12.C12_set_condition",
             "PotasscoVerif.C12.C12_set_condition_refused", "PotasscoVerif.C12.C12_atom_add", "PotasscoVerif.C12.C12_filter", "PotasscoVerif.C12.C12_update",
             "PotasscoVerif.C12.C12_tables_independent", "PotasscoVerif.C12.C12_visit_sound",
-            "PotasscoVerif.C12.C12_visit_complete", "PotasscoVerif.C12.C12_visit_only_referenced"]
-PARTIAL = {"print() / visit order": "that print() re-emits each stored term/atom as the directive it was added with, and the ORDER in which a visitor is shown the items, are decided by "
-           "correspondence (model == code on both visit sequences) and the harness's print check; the SET of items shown is proved (C12_visit_sound/_complete/_only_referenced)",
-           "real memory": "C12_heap is about the model's block account; freed-memory access and leaks of the real class are observed by ASan/LSan on the generated histories"}
+            "PotasscoVerif.C12.C12_visit_complete", "PotasscoVerif.C12.C12_visit_only_referenced",
+            "PotasscoVerif.C12.C12_print_term", "PotasscoVerif.C12.C12_print_atom", "PotasscoVerif.C12.C12_print_replays"]
+EXTRA_MODULES = ["PotasscoVerif.Props.C12p"]
+PARTIAL = {"real memory": "C12_heap is about the model's block account; freed-memory access and leaks of the real class are observed by ASan/LSan on the generated histories"}
 BSIZES = (4096,)
 RULE = ("seeded histories of 5..40 operations over sparse and dense ids 0..8: number/symbol/function/tuple terms (arguments referring to smaller ids, so terms are acyclic), "
         "elements with fixed or deferred conditions, atoms with and without guard (also dangling references), removals, redefinitions in the same and in a later step, "
@@ -30,8 +30,10 @@ LEVEL_TEXT = ("For ALL histories: C12_heap (live blocks == blocks reachable from
               "the current step (C12_atom_add, C12_filter), the three tables are independent (C12_tables_independent). Visiting, for EVERY store and both modes: whatever a fully "
               "recursive visitor is shown is stored and, in current mode, new (C12_visit_sound); a visit that ends normally has shown every atom of its range and, with every item, "
               "everything that item refers to (C12_visit_complete); and nothing that is not referred to by an item shown (C12_visit_only_referenced) — the items shown are exactly "
-              "the stored items reachable from the atoms. Tied to the code by running histories through the real TheoryData under ASan/LSan and comparing every lookup after every "
-              "op, both visit sequences and print(); a Python table + reachability oracle written from the statement is the oracle.")
+              "the stored items reachable from the atoms (the ORDER in which they are shown is not asked for by the property; it is compared model == code). "
+              "print() (Model/TheoryPrint.lean, Props/C12p.lean): the call made for a term right after it was defined is the defining call, the same for atoms (C12_print_term/_atom), and for EVERY store d a fresh "
+              "store that receives everything print() emits for d refuses nothing and then answers every term lookup and lists the atoms exactly as d does (C12_print_replays). Tied to the code by running histories through the real TheoryData under ASan/LSan and comparing every lookup after every "
+              "op, both visit sequences and the calls print() makes; a Python table + reachability oracle written from the statement is the oracle.")
 LEVEL_NOTE = ("Proved about Model/TheoryData.lean (allocation modelled as a counter; operator new/delete trusted); model==code on ~4k (quick) / 100k (thorough) histories. "
               "Real freed-memory access/leaks are observed only by ASan/LSan on those runs. Trusted: Lean kernel+axioms, harness, generator, reference() table.")
 
